@@ -108,3 +108,13 @@ else:
 
     def bitLength(number):
         return int(number).bit_length()
+
+
+def toText(value):
+    """Decimal text of an integer, hexadecimal where the interpreter
+    refuses the conversion (see `sys.set_int_max_str_digits`)."""
+    try:
+        return str(value)
+
+    except ValueError:
+        return hex(value)
